@@ -241,7 +241,23 @@ def run(tier: str) -> int:
         # a notification with nothing added and nothing removed announces no change: the statement neither
         # requires nor forbids it, so it is not judged
         got = [[e[0], e[1]] for e in LOG if e[0] not in ("getattr", "setattr") and not (e[0] == "on_atoms_changed" and not e[2] and not e[3])]
-        if got != c["log"]:
+        def normal(seq):
+            """the order inside a serialization block (to_dict / from_dict calls) and inside a block of
+            notifications is not part of the statement: sort each contiguous block"""
+            out, block, kind = [], [], None
+            for e in seq:
+                k = "ser" if e[0] in ("to_dict", "from_dict") else ("note" if e[0].startswith("on_") else None)
+                if k != kind and block:
+                    out += sorted(block)
+                    block = []
+                kind = k
+                if k is None:
+                    out.append(e)
+                else:
+                    block.append(e)
+            return out + sorted(block)
+
+        if normal(got) != normal(c["log"]):
             # name the first divergence
             i = next((k for k, (a, b) in enumerate(zip(got, c["log"])) if a != b), min(len(got), len(c["log"])))
             want = c["log"][i] if i < len(c["log"]) else ["<nothing>", ""]
